@@ -218,6 +218,10 @@ func runC20(c *Ctx) {
 		}
 	}
 
+	// ---- R20.6
+	c.ruleOpt("R20.6", "no single Read is taken for the whole stream (a Read may return fewer bytes than asked for)")
+	c.shortReadRule("R20.6", p.Httpio.Pkg)
+
 	// ---- R20.5
 	c.ruleOpt("R20.5", "an object handed to another goroutine over a channel is not returned to a sync.Pool by the sender")
 	c.poolSharedRule("R20.5", p.Httpio.Pkg)
@@ -288,6 +292,10 @@ func runC20(c *Ctx) {
 				}
 				if ci.Common().IsInvoke() && ci.Common().Method.Name() == "WriteHeader" {
 					k, ok := constInt(ci.Common().Args[0])
+					return ok && k != 200
+				}
+				if calleeName(ci) == "net/http.Error" && len(ci.Common().Args) == 3 {
+					k, ok := constInt(ci.Common().Args[2])
 					return ok && k != 200
 				}
 				return false
@@ -635,4 +643,49 @@ func (c *Ctx) onceGuard(fn *ssa.Function, depth int) (*types.Var, bool) {
 		}
 	}
 	return once, n > 0
+}
+
+// shortReadRule: io.Reader.Read may return fewer bytes than the buffer holds without error. A Read
+// whose count is used to cut the buffer that then stands for the whole stream (instead of being
+// forwarded to the caller, looped, or replaced by io.ReadFull / io.ReadAll) silently truncates uploads
+// of some lengths.
+func (c *Ctx) shortReadRule(rule string, pkg *types.Package) {
+	for _, fn := range c.P.Funcs {
+		if pkg != nil && pkgOf(fn) != pkg {
+			continue
+		}
+		allInstrs(fn, func(in ssa.Instruction) {
+			ci, ok := in.(*ssa.Call)
+			if !ok || !ci.Common().IsInvoke() || ci.Common().Method.Name() != "Read" || len(ci.Common().Args) != 1 {
+				return
+			}
+			if inLoop(ci.Block()) {
+				return
+			}
+			// forwarded: the count is one of the function's results
+			forwarded, sliced := false, false
+			for _, ref := range *ci.Referrers() {
+				ex, ok := ref.(*ssa.Extract)
+				if !ok || ex.Index != 0 {
+					continue
+				}
+				for _, use := range transitiveUses(ex) {
+					switch u := use.(type) {
+					case *ssa.Return:
+						forwarded = true
+					case *ssa.Slice:
+						if u.High == ssa.Value(ex) || (u.High != nil && stripConvInt(u.High) == ssa.Value(ex)) {
+							sliced = true
+						}
+					}
+				}
+			}
+			if sliced && !forwarded {
+				c.bad(rule, fmt.Sprintf("%s: single Read taken for the whole content", fname(fn)), c.ipos(ci), "the result of one Read call (which may be short) is cut to its count and used as the complete stream: uploads whose length falls between the bytes already buffered by net/http and the requested size arrive truncated, with a clean EOF")
+			}
+		})
+	}
+	if c.ruleN[rule] == 0 {
+		c.ok(rule, "no single-Read buffering", "-", "no Read result outside a loop is used to delimit a buffer")
+	}
 }
